@@ -360,11 +360,9 @@ func (r *authRun) loginPar(host, xfh, path string, q url.Values, emit bool, parM
 		}
 		return strings.Join(l, "+")
 	}
-	// one client assertion serves all attempts of one exchange: verify it once per distinct value
-	seenCA := map[string]bool{}
+	// every POST is a request of its own: each one's assertion is verified and its jti must be new (also for a retry after a 5xx)
 	for _, e := range pars {
-		if ca := e.Form["client_assertion"]; ca != "" && !seenCA[ca] {
-			seenCA[ca] = true
+		if ca := e.Form["client_assertion"]; ca != "" {
 			o.Assertions = append(o.Assertions, checkAssertion(ca))
 		}
 	}
